@@ -60,6 +60,7 @@ func (s *Sim) commit(t *txn) {
 		}
 		n := s.M.Create(e.H, e.Comps, e.Tgt)
 		e.Label = n.Label
+		s.tracef("%d new %d/%d", s.OpIdx, e.H.ID(), e.H.Gen())
 	}
 	labels := make([]int, 0, len(t.post))
 	for l := range t.post {
